@@ -101,13 +101,15 @@ def run(ctx):
     verdicts = bo.tlc_output_verdicts(universes, recs, ctx, "c09")
     by_clause = {}
     for rec in recs:
-        for cl in verdicts[rec["id"]]:
-            by_clause.setdefault(cl, []).append(rec)
-    for cl, items in sorted(by_clause.items()):
+        failing = set(verdicts[rec["id"]])
+        for cl in failing - {"note-order-as-built"}:
+            # the recorded finding (`O none` compares line numbers as text) explains a disorder only if the order is right once
+            # line numbers are compared the way the code does; any other disorder is reported
+            kf = cl == "note-order" and "note-order-as-built" not in failing and "NONE" in rec["q"]["order"]
+            by_clause.setdefault((cl, kf), []).append(rec)
+    for (cl, kf), items in sorted(by_clause.items()):
         rec = min(items, key=lambda x: len(x["out"]))
-        key = None
-        if cl == "note-order" and all("NONE" in x["q"]["order"] for x in items):
-            key = "order-none-line-numbers-as-text"
+        key = "order-none-line-numbers-as-text" if kf else None
         ctx.violation(f"{len(items)} rendered result(s) violate clause `{cl}` of Output.tla; smallest: `{rec['txt']}`",
                       {"clause": cl, "count": len(items), "query": rec["txt"], "output": rec["out"],
                        "pages": {str(p.relative_to(dirs[rec['u'] - 1])): p.read_text() for p in Path(dirs[rec['u'] - 1]).rglob('*.zo')},
